@@ -1337,4 +1337,25 @@ theorem tracking_ends_only_by_lru_eviction (g : GStore) (f n f' n' c : Nat) (e :
       refine ⟨hk, h2, h3, ?_⟩
       rw [hv, track_unique g.entries f n e v hnd he (List.mem_of_getElem? hv) hvk]
 
+/-! ## Non-vacuity of the hypotheses of the whole-history theorems -/
+
+/-- `tracking_ends_only_by_lru_eviction`: a full store (16 senders), sender (1,0) tracked and heard
+longest ago; a 17th, untracked sender evicts exactly it. -/
+example :
+    let g := (storeRun GStore.empty ((List.range 16).map fun i => ((1 : Nat), i, (7 : Nat)))).1
+    (keys g.entries).Nodup ∧ (track g.entries 1 0).isSome ∧
+      track (g.postRecv 2 0 9).1.entries 1 0 = none ∧ lruIdx g.entries = 0 := by decide
+
+/-- `store_no_double_accept`: the cycle bound holds on a concrete period that rolls over. -/
+example : (runG (gInit 4294967293) [4294967293] (own 1 0 [(1, 0, 2), (2, 5, 2), (1, 0, 4294967294), (1, 0, 2)])).1.P
+    - (4294967293 + U32) < U32 := by decide
+
+/-- `plain_restart_accepted`, `plain_no_double_accept`, `plain_newer_accepted`, `plain_in_window_once`:
+their hypotheses on the epoch state reached by `100, 99, 50, 52`. -/
+example :
+    let p := specPlainState PSpec.init [100, 99, 50, 52]
+    p = { floor := 50, acc := [52, 50] } ∧ (52 ∈ p.acc ∧ 10 + L < 52) ∧
+      (50 ∈ p.acc ∧ p.isRestart 50 = false) ∧ (∀ a ∈ p.acc, p.floor ≤ a) ∧ (∀ a ∈ p.acc, a < 60) ∧
+      (51 ∉ p.acc ∧ p.floor ≤ 51) := by decide
+
 end C04
